@@ -143,7 +143,11 @@ def sym_text(ctx, shape):
         ctx.inputs['text'] = list(cps)
         return ctx.m.str_lit(cps)
     chars = []
+    tmpl = shape.get('template')
     for i in range(n):
+        if tmpl and tmpl[i] != 'x':
+            chars.append(Int(tmpl[i], 'char'))
+            continue
         if shape.get('wide') and i == 1:
             c = ctx.sym_char('t%d' % i, 3)
         else:
